@@ -21,7 +21,18 @@ import numpy as np
 import collections, copy, itertools, warnings, yaml
 from onsager import crystal, supercell
 import tarfile, time, io, json
-import pkg_resources
+try:
+    from importlib.resources import files as _resource_files
+
+    def _resource_string(name):
+        """Contents (bytes) of a data file that ships inside the package"""
+        return _resource_files(__package__).joinpath(name).read_bytes()
+except ImportError:  # older Pythons: fall back on setuptools
+    import pkg_resources
+
+    def _resource_string(name):
+        """Contents (bytes) of a data file that ships inside the package"""
+        return pkg_resources.resource_string(__name__, name)
 
 
 def map2string(tag, groupop, mapping):
@@ -224,9 +235,9 @@ def supercelltar(tar, superdict, filemode=0o664, directmode=0o775, timestamp=Non
     for filename, strdata in (('INCAR.relax', INCARrelax), ('INCAR.NEB', INCARNEB)) + \
             ((('KPOINTS', KPOINTS),) if kpoints else tuple()):
         addfile(filename, strdata)
-    addfile('trans.pl', str(pkg_resources.resource_string(__name__, 'trans.pl'), 'ascii'), executable=True)
-    addfile('nebmake.pl', str(pkg_resources.resource_string(__name__, 'nebmake.pl'), 'ascii'), executable=True)
-    addfile('Vasp.pm', str(pkg_resources.resource_string(__name__, 'Vasp.pm'), 'ascii'))
+    addfile('trans.pl', str(_resource_string('trans.pl'), 'ascii'), executable=True)
+    addfile('nebmake.pl', str(_resource_string('nebmake.pl'), 'ascii'), executable=True)
+    addfile('Vasp.pm', str(_resource_string('Vasp.pm'), 'ascii'))
     # now, go through the states:
     if 'reference' in superdict:
         addfile('POSCAR', superdict['reference'].POSCAR('Defect-free reference'))
